@@ -6,6 +6,7 @@ Local Open Scope Z_scope.
 
 Inductive const : Type :=
 | CInt (z : Z)          (* exact integer (fixnum or bignum) *)
+| CRat (n : Z) (d : positive)   (* exact ratio n/d in lowest terms, d > 1 (round 2: results of /) *)
 | CBool (b : bool)
 | CVoid                 (* the unspecified value *)
 | COther (tag : Z).     (* any other constant: string, character, symbol, quoted list, flonum ...; true as a test, not a number *)
@@ -24,6 +25,7 @@ Inductive expr : Type :=
 Definition const_eqb (a b : const) : bool :=
   match a, b with
   | CInt x, CInt y => x =? y
+  | CRat n d, CRat m e => (n =? m) && (Pos.eqb d e)
   | CBool x, CBool y => Bool.eqb x y
   | CVoid, CVoid => true
   | COther x, COther y => x =? y
